@@ -1422,6 +1422,8 @@ static void inflate(int nodeIdx, const Node& n, const Node& pn, int p, const std
       if (!okRoutes[k]) continue;   // a route that is wrong on the small case is not inflated
       if (ISOLATE.count(o.op + "|" + PROFNAME[p] + "|" + routes[k].name)) continue;   // nor a route known to overrun
       if (NOINFLATE.count(o.op + "|" + PROFNAME[p] + "|" + routes[k].name)) continue;
+      // the generic element-by-element congruence products cost n^4: not inflated
+      if (routes[k].name.find("AMatrix::prodNorm") != std::string::npos || routes[k].name.find("normMatrix") != std::string::npos) continue;
       if (!enter(nodeIdx, p, (int)k, 1, kind, o.op + "/" + routes[k].name)) continue;
       Regs* g = pre.clone();
       Outcome out;
